@@ -377,6 +377,18 @@ def wicks(expr, rules: Rules = None, simplify_kronecker_deltas: bool = False):
 
     # break up any NO-objects, and evaluate commutators
     expr = expr.doit(wicks=True).expand()
+    # sympy splits general indices in NO-objects into occupied and virtual
+    # sympy Dummy indices that are linked to the general index by a sympy
+    # KroneckerDelta -> replace both by the corresponding adcgen objects
+    from sympy import KroneckerDelta as SympyKroneckerDelta, Dummy
+    sympy_dummies = [s for s in expr.atoms(Dummy) if not isinstance(s, Index)]
+    if sympy_dummies:
+        expr = expr.xreplace({
+            s: Index(s.name, **{key: True for key in
+                                ("below_fermi", "above_fermi")
+                                if s.assumptions0.get(key)})
+            for s in sympy_dummies
+        }).replace(SympyKroneckerDelta, KroneckerDelta).expand()
 
     if isinstance(expr, Add):
         return Add(*[wicks(term, rules=rules,
